@@ -296,8 +296,11 @@ class C04(Check):
     comp = 'Life'
     extracted = ['coq/Life/model.mli', 'coq/Life/model.ml', 'ocaml/zconv.ml', 'ocaml/life_driver.ml']
     harness_sources = ['harness/life.cpp']
-    per_case_timeout = 5
-    technique = 'proof'
+    per_case_timeout = 10
+    technique = ('machine-checked proof (Coq 8.16.1) about an executable Gallina lifetime model of the eight container headers '
+                 '(ownership invariant by multiset counting, refinement to a pure value spec, independent ledger over the event log); '
+                 'extracted model and spec run against an ASan/UBSan build of the code with an instance-tracking element type on '
+                 'generated and exhaustive histories')
     level_text = (
         'Theorems in Coq (Properties_C04.v, closed under the global context) about an executable lifetime model of Array, List, Map, '
         'MultiMap, HashMap, HashSet, PoolList and PoolMap: a world of element instances (ids = construction serials, payload) and of '
@@ -341,6 +344,22 @@ class C04(Check):
         oks = sum(1 for l in obs if l.startswith('ok'))
         made = sum(len(re.findall(r'[VCD]\d+', l.split(' | ')[2])) for l in obs if l.count(' | ') >= 2)
         return oks >= 4 and made >= 3
+
+    def run_impl(self, cases, tag='impl'):
+        """the watchdog also fires when the machine stalls: a timeout counts only if it repeats"""
+        res, crashes = Check.run_impl(self, cases, tag)
+        if len(cases) > 1:
+            for i, o in enumerate(res):
+                if o and o[-1].startswith(('! timeout', '! killed')):
+                    for _ in range(2):
+                        o2, c2 = Check.run_impl(self, [cases[i]], 'retry_' + tag)
+                        if not (o2[0] and o2[0][-1].startswith(('! timeout', '! killed'))):
+                            res[i] = o2[0]
+                            crashes.pop(i, None)
+                            if 0 in c2:
+                                crashes[i] = c2[0]
+                            break
+        return res, crashes
 
     def judge(self, cases, impl_obs, spec_obs):
         fails = []
